@@ -10,8 +10,9 @@ Main results
                                  docstring, literal value; no name twice            (all lists of the subset)
 * `Builder.documented_eq_bound_partial`  nothing missing, nothing invented, nothing twice     (corollary)
 * `Builder.kind_eq`, `kind_eq_iff`   kind from decorators = class of the bound object, for ALL decorator lists
-* `Builder.exception_eq_partial`         exception-ness through the bases
-* `Builder.docstring_eq_partial`         docstring = cleandoc of the interpreter's `__doc__`; coroutine flag
+* `Builder.exception_eq`         exception-ness through the bases, full for the generated tables
+                                 (`exception_tables_agree`: no name on which the tables disagree)
+* `Builder.docstring_eq`         docstring = cleandoc of the interpreter's `__doc__`; coroutine flag
 * `Builder.value_eq`, `infer_type_sound`, `infer_elements_sound`   inferred type = `type(value).__name__`
 * `…_counterexample`             one concrete witness per construct the hypothesis `Subset.inSubset` excludes.
 
@@ -21,9 +22,10 @@ Full statement of the property (FALSE on this tree, kept visible):
 It fails for `@x.setter` (member `x.setter` invented), a bare annotation (member invented), an assigned
 class attribute that shadows an inherited method (member missing), definitions in `else`/`finally`
 (missing), re-bound names (pydoctor keeps the `def`/`class`), `@overload` without implementation; the
-kind clause fails for stacked descriptors, `builtins.classmethod`, identity decorators named `*property`,
-descriptors at module level and exception classes missing from `_STD_LIB_EXCEPTIONS`; the docstring clause
-fails for a string statement right after a property.  Each has a `_counterexample` theorem below;
+kind clause fails for stacked descriptors, `builtins.classmethod`, identity decorators named `*property` and
+descriptors at module level.  Each has a `_counterexample` theorem below.  Two former exclusions are gone:
+exception classes missing from `_STD_LIB_EXCEPTIONS` (fixed by 769cae3) and a string statement right after a
+property (fixed by fcaa577); their witnesses are kept as `…_counterexample_old` over labelled pre-fix definitions;
 `documented_eq_bound_partial` is the `_partial` form under the decidable hypothesis `Subset.inSubset`.
 -/
 import PdModel.Builder
@@ -85,9 +87,9 @@ theorem any_congr_of_all {α} (f g : α → Bool) : ∀ l : List α, l.all (fun 
     simp only [List.all_cons, Bool.and_eq_true, beq_iff_eq] at h
     simp [List.any_cons, h.1, any_congr_of_all f g rest h.2]
 
-/-- **exception_eq_partial** — a class is documented as an exception exactly when CPython makes it a subclass
+/-- **exception_eq_of_tables** — a class is documented as an exception exactly when CPython makes it a subclass
 of `BaseException`, provided the two name tables classify alike the external names its bases reach. -/
-theorem exception_eq_partial (c : Ctx) (bases : List Base) (h : basesOk c bases = true) :
+theorem exception_eq_of_tables (c : Ctx) (bases : List Base) (h : basesOk c bases = true) :
     isException c bases = PySem.isException c bases := by
   unfold isException PySem.isException
   exact any_congr_of_all _ _ _ h
@@ -301,7 +303,7 @@ structure Rel (c : Ctx) (sn : Seen) (s : State) (ns : PySem.Ns) : Prop where
   plainSub : ∀ n ∈ sn.plain, n ∈ sn.names
   plainB : ∀ n ∈ sn.plain, ∀ m ∈ s.contents, m.name = n → m.cls = .function ∧ m.kind = .method
   plainP : ∀ n ∈ sn.plain, ∀ b ∈ ns, b.1 = n → ∃ a d, b.2 = .func a d
-  cur : sn.curProp = false → ∀ n, s.cur = some n → ∀ m ∈ s.contents, m.name = n → m.cls = .attribute ∧ m.kind ≠ .property
+  cur : ∀ n, s.cur = some n → ∀ m ∈ s.contents, m.name = n → m.cls = .attribute ∧ m.kind ≠ .property
 
 theorem Rel.pnames {c : Ctx} {sn : Seen} {s : State} {ns : PySem.Ns} (R : Rel c sn s ns) :
     ns.map (·.1) = sn.names := by
@@ -314,10 +316,10 @@ theorem rel_init (c : Ctx) : Rel c {} {} [] :=
 /-- both sides append a new entry under a fresh name -/
 theorem rel_append {c : Ctx} {sn : Seen} {s : State} {ns : PySem.Ns} (R : Rel c sn s ns)
     (m : Member) (o : PySem.PyObj) (hfresh : m.name ∉ sn.names)
-    (hv : viewB c m = viewP c (m.name, o)) (cur' : Option Name) (plain' : List Name) (curProp' : Bool)
+    (hv : viewB c m = viewP c (m.name, o)) (cur' : Option Name) (plain' : List Name)
     (hplain : ∀ n ∈ plain', n ∈ sn.plain ∨ (n = m.name ∧ m.cls = .function ∧ m.kind = .method ∧ ∃ a d, o = .func a d))
-    (hcur : curProp' = false → ∀ n, cur' = some n → n = m.name ∧ m.cls = .attribute ∧ m.kind ≠ .property) :
-    Rel c { names := sn.names ++ [m.name], plain := plain', curProp := curProp' }
+    (hcur : ∀ n, cur' = some n → n = m.name ∧ m.cls = .attribute ∧ m.kind ≠ .property) :
+    Rel c { names := sn.names ++ [m.name], plain := plain' }
       { contents := s.contents ++ [m], cur := cur' } (ns ++ [(m.name, o)]) := by
   have hnc : ∀ m' ∈ s.contents, m'.name ≠ m.name := by
     intro m' hm' e
@@ -360,8 +362,8 @@ theorem rel_append {c : Ctx} {sn : Seen} {s : State} {ns : PySem.Ns} (R : Rel c 
     · rcases hb with hb | hb
       · exact absurd (e.trans h.1) (hnp b hb)
       · subst hb; exact h.2.2.2
-  · intro hc n hn m' hm' e
-    obtain ⟨h1, h2, h3⟩ := hcur hc n hn
+  · intro n hn m' hm' e
+    obtain ⟨h1, h2, h3⟩ := hcur n hn
     simp only [List.mem_append, List.mem_singleton] at hm'
     rcases hm' with hm' | hm'
     · exact absurd (e.trans h1) (hnc m' hm')
@@ -388,9 +390,9 @@ theorem sim_classDef {c : Ctx} {sn sn' : Seen} {s : State} {ns : PySem.Ns} (R : 
     refine ⟨_, _, by simp only [execStmt]; rfl, by simp only [PySem.execStmt]; rfl, ?_⟩
     simp only [handleClassDef]
     rw [put_fresh _ _ hl, bind_fresh _ _ _ hlp]
-    refine rel_append R { name := n, cls := .cls, kind := .cls, doc := doc.map cleandoc, bases := bases } _ hn' ?_ none sn.plain false
+    refine rel_append R { name := n, cls := .cls, kind := .cls, doc := doc.map cleandoc, bases := bases } _ hn' ?_ none sn.plain
       (fun n hn => Or.inl hn) (by simp)
-    rw [← exception_eq_partial c bases (by simpa using hb)]
+    rw [← exception_eq_of_tables c bases (by simpa using hb)]
     cases he : isException c bases <;>
       simp [viewB, viewP, postProcess, he, kindClass, PySem.kindClass, PySem.coroutine, PySem.underlying, PySem.rawDoc]
 
@@ -432,8 +434,8 @@ theorem sim_assign {c : Ctx} {sn sn' : Seen} {s : State} {ns : PySem.Ns} (R : Re
       simp only [handleVar, hcl, handleClassVar, maybeAttribute, hl, hi', if_true, Bool.not_false, Bool.not_true]
       rw [put_fresh _ _ (by rw [f1]; exact hl), bind_fresh _ _ _ hlp]
       have := rel_append R (storeVar { name := n, cls := .attribute, kind := .classVariable } ann (some v) inBlock .classVariable)
-        (.value v) (by rw [f1]; exact hn') (view_var c _ v f2 f3 f4) (some n) sn.plain false (fun n hn => Or.inl hn)
-        (by intro _ k hk; simp at hk; subst hk; exact ⟨f1.symm, f2, f3⟩)
+        (.value v) (by rw [f1]; exact hn') (view_var c _ v f2 f3 f4) (some n) sn.plain (fun n hn => Or.inl hn)
+        (by intro k hk; simp at hk; subst hk; exact ⟨f1.symm, f2, f3⟩)
       simpa [f1] using this
     | false =>
       obtain ⟨f1, f2, f3, f4⟩ := storeVar_facts { name := n, cls := .attribute, kind := .variable } ann v inBlock
@@ -442,8 +444,8 @@ theorem sim_assign {c : Ctx} {sn sn' : Seen} {s : State} {ns : PySem.Ns} (R : Re
       simp only [handleVar, hcl, handleModuleVar, hl]
       rw [put_fresh _ _ (by rw [f1]; exact hl), bind_fresh _ _ _ hlp]
       have := rel_append R (storeVar { name := n, cls := .attribute, kind := .variable } ann (some v) inBlock .variable)
-        (.value v) (by rw [f1]; exact hn') (view_var c _ v f2 f3 f4) (some n) sn.plain false (fun n hn => Or.inl hn)
-        (by intro _ k hk; simp at hk; subst hk; exact ⟨f1.symm, f2, f3⟩)
+        (.value v) (by rw [f1]; exact hn') (view_var c _ v f2 f3 f4) (some n) sn.plain (fun n hn => Or.inl hn)
+        (by intro k hk; simp at hk; subst hk; exact ⟨f1.symm, f2, f3⟩)
       simpa [f1] using this
 
 theorem decoFlags_ok (inClass : Bool) (n : Name) (ds : List Deco) (h : ds.all (decoOk inClass) = true) :
@@ -485,7 +487,7 @@ theorem sim_funcDef {c : Ctx} {sn sn' : Seen} {s : State} {ns : PySem.Ns} (R : R
       cases hci : c.inClass with
       | true =>
         refine rel_append R { name := n, cls := .function, kind := .method, doc := doc.map cleandoc, isAsync := async, hasSig := true }
-          (.func async doc) hn' ?_ none _ _ ?_ (by simp)
+          (.func async doc) hn' ?_ none _ ?_ (by simp)
         · simp [viewB, viewP, postProcess, kindClass, PySem.kindClass, PySem.coroutine, PySem.underlying, PySem.rawDoc, hci]
         · intro n' hn''
           simp at hn''
@@ -494,7 +496,7 @@ theorem sim_funcDef {c : Ctx} {sn sn' : Seen} {s : State} {ns : PySem.Ns} (R : R
           · exact Or.inr ⟨h, rfl, rfl, _, _, rfl⟩
       | false =>
         refine rel_append R { name := n, cls := .function, kind := .function, doc := doc.map cleandoc, isAsync := async, hasSig := true }
-          (.func async doc) hn' ?_ none _ _ ?_ (by simp)
+          (.func async doc) hn' ?_ none _ ?_ (by simp)
         · simp [viewB, viewP, postProcess, kindClass, PySem.kindClass, PySem.coroutine, PySem.underlying, PySem.rawDoc, hci]
         · intro n' hn''
           simp at hn''
@@ -504,11 +506,11 @@ theorem sim_funcDef {c : Ctx} {sn sn' : Seen} {s : State} {ns : PySem.Ns} (R : R
       | property =>
         have hB : handleFunctionDef c s n async decos doc =
             { contents := s.contents ++ [{ name := n, cls := .attribute, kind := .property, doc := doc.map cleandoc }],
-              cur := some n } := by
+              cur := none } := by
           simp [handleFunctionDef, decoFlags_ok c.inClass n decos hall, hl, hds, put]
         rw [hB]
         refine rel_append R { name := n, cls := .attribute, kind := .property, doc := doc.map cleandoc }
-          (.prop (.func async doc)) hn' ?_ (some n) _ _ ?_ (by simp)
+          (.prop (.func async doc)) hn' ?_ none _ ?_ (by simp)
         · simp [viewB, viewP, postProcess, kindClass, PySem.kindClass, PySem.coroutine, PySem.underlying, PySem.rawDoc]
         · intro n' hn''
           simp at hn''
@@ -521,7 +523,7 @@ theorem sim_funcDef {c : Ctx} {sn sn' : Seen} {s : State} {ns : PySem.Ns} (R : R
           cases doc <;> simp [put, hl]
         rw [hB]
         refine rel_append R { name := n, cls := .function, kind := .classMethod, doc := doc.map cleandoc, isAsync := async, hasSig := true }
-          (.cm (.func async doc)) hn' ?_ none _ _ ?_ (by simp)
+          (.cm (.func async doc)) hn' ?_ none _ ?_ (by simp)
         · simp [viewB, viewP, postProcess, kindClass, PySem.kindClass, PySem.coroutine, PySem.underlying, PySem.rawDoc]
         · intro n' hn''
           simp at hn''
@@ -534,7 +536,7 @@ theorem sim_funcDef {c : Ctx} {sn sn' : Seen} {s : State} {ns : PySem.Ns} (R : R
           cases doc <;> simp [put, hl]
         rw [hB]
         refine rel_append R { name := n, cls := .function, kind := .staticMethod, doc := doc.map cleandoc, isAsync := async, hasSig := true }
-          (.sm (.func async doc)) hn' ?_ none _ _ ?_ (by simp)
+          (.sm (.func async doc)) hn' ?_ none _ ?_ (by simp)
         · simp [viewB, viewP, postProcess, kindClass, PySem.kindClass, PySem.coroutine, PySem.underlying, PySem.rawDoc]
         · intro n' hn''
           simp at hn''
@@ -581,20 +583,15 @@ theorem sim_attrDoc {c : Ctx} {sn sn' : Seen} {s : State} {ns : PySem.Ns} (R : R
     (t : List Char) (h : checkStmt c sn (.attrDoc t) = some sn') :
     ∃ s' ns', execStmt c inBlock s (.attrDoc t) = .ok s' ∧
       PySem.execStmt c ns (.attrDoc t) = .ok ns' ∧ Rel c sn' s' ns' := by
-  simp only [checkStmt] at h
-  split at h
-  · simp at h
-  · rename_i hc
-    simp only [Bool.not_eq_true] at hc
-    simp only [Option.some.injEq] at h
-    subst h
-    refine ⟨_, _, by simp only [execStmt]; rfl, by simp only [PySem.execStmt]; rfl, ?_⟩
+  simp only [checkStmt, Option.some.injEq] at h
+  subst h
+  · refine ⟨_, _, by simp only [execStmt]; rfl, by simp only [PySem.execStmt]; rfl, ?_⟩
     unfold handleAttrDoc
     cases hcur : s.cur with
     | none => exact R
     | some n =>
       simp only
-      have hmem := R.cur hc n hcur
+      have hmem := R.cur n hcur
       have hg : ∀ m ∈ s.contents, viewB c (if m.name = n then { m with doc := some (cleandoc t) } else m) = viewB c m := by
         intro m hm
         by_cases e : m.name = n
@@ -715,16 +712,16 @@ theorem sim_oldStyle {c : Ctx} {sn sn' : Seen} {s : State} {ns : PySem.Ns} (R : 
             exact absurd e.symm hk.2
           · simp only [e', if_false] at e ⊢
             exact R.plainP k hk.1 b hb e
-        · intro hcp k hk m' hm' e
+        · intro k hk m' hm' e
           simp only [upd, List.mem_map] at hm'
           obtain ⟨m, hm, rfl⟩ := hm'
           by_cases e' : m.name = n
           · simp only [e', if_true] at e
-            have h1 := (R.cur hcp k hk m hm (e' ▸ e)).1
+            have h1 := (R.cur k hk m hm (e' ▸ e)).1
             have h2 := (R.plainB n hpl' m hm e').1
             rw [h1] at h2; exact absurd h2 (by simp)
           · simp only [e', if_false] at e ⊢
-            exact R.cur hcp k hk m hm e
+            exact R.cur k hk m hm e
   · simp at h
 
 /-! ## blocks: the mutual induction -/
@@ -869,10 +866,10 @@ theorem forall2_of_map_eq {α β γ : Type} (f : α → γ) (g : β → γ) :
     simp only [List.map_cons, List.cons.injEq] at h
     exact .cons h.1 (forall2_of_map_eq f g l p h.2)
 
-/-- **docstring_eq_partial** — entry by entry, every documented class, function, method and property carries
+/-- **docstring_eq** — entry by entry, every documented class, function, method and property carries
 `cleandoc` of the `__doc__` the interpreter reports for the bound object (`fget.__doc__` for a property),
 `cleandoc` being the shared model of `inspect.cleandoc` (`Lineno.cleandoc`); and the coroutine flag agrees. -/
-theorem docstring_eq_partial (c : Ctx) (stmts : List Stmt) (h : inSubset c stmts = true) :
+theorem docstring_eq (c : Ctx) (stmts : List Stmt) (h : inSubset c stmts = true) :
     ∃ ms ns, scope c stmts = .ok ms ∧ PySem.scope c stmts = .ok ns ∧
       Zip (fun (m : Member) (p : Name × PySem.PyObj) =>
         m.name = p.1 ∧
@@ -949,12 +946,46 @@ def realCtx (inClass : Bool) : Ctx :=
 theorem exception_table_sound :
     Tables.Exceptions.pydoctor.all (fun n => Tables.Exceptions.builtins.contains n) = true := by decide +kernel
 
-/-- full statement (false on this tree): `∀ c bases, isException c bases = PySem.isException c bases` with the
-generated tables.  `class G(ExceptionGroup)` is an exception for CPython and a plain class for pydoctor. -/
-theorem exception_eq_counterexample :
-    isException (realCtx false) [.ext "ExceptionGroup".toList] = false ∧
-    PySem.isException (realCtx false) [.ext "ExceptionGroup".toList] = true := by decide +kernel
+/-- every exception class name of the reference interpreter is in `_STD_LIB_EXCEPTIONS` (since 769cae3) -/
+theorem exception_table_complete :
+    Tables.Exceptions.builtins.all (fun n => Tables.Exceptions.pydoctor.contains n) = true := by decide +kernel
 
+/-- the two generated tables classify EVERY name alike: no name is left on which they disagree -/
+theorem exception_tables_agree (n : Name) :
+    Tables.Exceptions.pydoctor.contains n = Tables.Exceptions.builtins.contains n := by
+  have h1 := List.all_eq_true.mp exception_table_sound
+  have h2 := List.all_eq_true.mp exception_table_complete
+  cases hp : Tables.Exceptions.pydoctor.contains n <;> cases hy : Tables.Exceptions.builtins.contains n
+  · rfl
+  · have := h2 n (by simpa using hy); simp_all
+  · have := h1 n (by simpa using hp); simp_all
+  · rfl
+
+/-- with the generated tables the exception clause of `Subset.inSubset` holds for every base list -/
+theorem basesOk_generated (c : Ctx) (hp : c.pdExc = Tables.Exceptions.pydoctor) (hy : c.pyExc = Tables.Exceptions.builtins)
+    (bases : List Base) : basesOk c bases = true := by
+  simp only [basesOk, hp, hy, List.all_eq_true, beq_iff_eq]
+  intro x _
+  exact exception_tables_agree x
+
+/-- **exception_eq** (full) — with the tables generated from this tree and this interpreter, a class is
+documented as an exception exactly when CPython makes it a subclass of `BaseException`, for every base list. -/
+theorem exception_eq (c : Ctx) (hp : c.pdExc = Tables.Exceptions.pydoctor) (hy : c.pyExc = Tables.Exceptions.builtins)
+    (bases : List Base) : isException c bases = PySem.isException c bases :=
+  exception_eq_of_tables c bases (basesOk_generated c hp hy bases)
+
+/-- `_STD_LIB_EXCEPTIONS` as it was before 769cae3 (the Python 3.8 list) — pre-fix, for the record -/
+def pydoctorExcOld : List Name :=
+  Tables.Exceptions.pydoctor.filter fun n =>
+    !["BaseExceptionGroup".toList, "EncodingWarning".toList, "ExceptionGroup".toList].contains n
+
+/-- historical (before 769cae3): `class G(ExceptionGroup)` was an exception for CPython and a plain class for pydoctor -/
+theorem exception_eq_counterexample_old :
+    isException { realCtx false with pdExc := pydoctorExcOld } [.ext "ExceptionGroup".toList] = false ∧
+    PySem.isException { realCtx false with pdExc := pydoctorExcOld } [.ext "ExceptionGroup".toList] = true ∧
+    isException (realCtx false) [.ext "ExceptionGroup".toList] = true := by decide +kernel
+
+example : basesOk (realCtx false) [.ext "ExceptionGroup".toList, .ext "object".toList] = true := by decide +kernel
 example : basesOk (realCtx false) [.ext "ValueError".toList] = true := by decide +kernel
 
 
@@ -1100,13 +1131,24 @@ def pyDocsOf (c : Ctx) (stmts : List Stmt) : List (Option (List Char)) :=
   | .ok ns => ns.map fun p => (PySem.rawDoc p.2).map Lineno.cleandoc
   | .raises => []
 
-/-- a string statement right after a property becomes the property's docstring (`currentAttr` is left
-pointing at the property); the interpreter reports the getter's -/
-theorem docstring_eq_counterexample :
-    docsOf (cx true) [.funcDef nX false [.builtin .property false] (some "getter".toList), .attrDoc "other".toList]
+/-- `_handleFunctionDef` on a property as it was before fcaa577: `addAttribute` left `currentAttr` on the new
+attribute — pre-fix, for the record -/
+def propertyDefOld (s : State) (n : Name) (doc : Option (List Char)) : State :=
+  { contents := put s.contents { name := n, cls := .attribute, kind := .property, doc := doc.map cleandoc },
+    cur := some n }
+
+/-- historical (before fcaa577): a string statement right after a property replaced the property's docstring;
+now the property keeps the getter's docstring, which is what the interpreter reports -/
+theorem docstring_eq_counterexample_old :
+    (handleAttrDoc (propertyDefOld {} nX (some "getter".toList)) "other".toList).contents.map (·.doc)
       = [some "other".toList] ∧
+    docsOf (cx true) [.funcDef nX false [.builtin .property false] (some "getter".toList), .attrDoc "other".toList]
+      = [some "getter".toList] ∧
     pyDocsOf (cx true) [.funcDef nX false [.builtin .property false] (some "getter".toList), .attrDoc "other".toList]
       = [some "getter".toList] := by decide
+
+example : inSubset (cx true)
+    [.funcDef nX false [.builtin .property false] (some "getter".toList), .attrDoc "other".toList] = true := by decide
 
 /-- wrapping a method twice the old way trips `assert target_obj.kind is DocumentableKind.METHOD` -/
 theorem oldstyle_double_wrap_asserts :
